@@ -182,7 +182,9 @@ CLAIMED = {
              "(accounting == sum of counted entries, 0 <= cur <= max, heap/table consistency, claims carry 0 bytes) assumed, at every "
              "release G is proved; the source asserts are obligations under that havoc; waits on futures happen with the lock released; "
              "the writer task clears an entry's writing flag only after the file holds the new contents; a load that finishes while a "
-             "write of the file is pending leaves the entry to the write. Table cache: the per-file append lock protocol of "
+             "write of the file is pending leaves the entry to the write; an unfinished write owns its entry and no second write of the "
+             "file is submitted next to it (ghost wtask, invariant GW proved at every release); a counted entry whose task has completed "
+             "accounts exactly the length of its contents (invariant GL, proved at every release). Table cache: the per-file append lock protocol of "
              "PandasDataFrameCache.update as rely/guarantee - append_locks only touched under the cache lock, a lock registered only when "
              "none is registered in the same critical section, the read-merge-write runs under the registered lock, and no lock is "
              "acquired while this thread holds it (the retry's precondition).",
